@@ -3,8 +3,8 @@ package main
 import (
 	"go/constant"
 	"go/token"
-	"strings"
 	"go/types"
+	"strings"
 
 	"golang.org/x/tools/go/ssa"
 )
